@@ -246,6 +246,33 @@ def g_c07(tier, rnd):
                                   'gain': None, 'channels': rnd.choice(sels)}
 
 
+def g_c02_orch(tier, rnd):
+    """orchestration of get_transform_fxn with stub clustering / selection / fitting: small integer-valued samples (ties between
+    population means in single channels are frequent), every labelling order, several clustering-channel lists"""
+    n_cases = 250 if tier == 'quick' else 3000
+    for _ in range(n_cases):
+        K = rnd.choice([2, 3, 3, 4])
+        per = rnd.choice([1, 2, 3])
+        D = 3
+        centres = [[rnd.choice([0, 1, 2, 3, 5, 8]) for _c in range(D)] for _k in range(K)]
+        rows, labels = [], []
+        names = list(range(K))
+        rnd.shuffle(names)
+        for kx in range(K):
+            for _e in range(per):
+                rows.append([float(v + (rnd.choice([0, 0, 1]) if per > 1 else 0)) for v in centres[kx]])
+                labels.append(names[kx])
+        order = list(range(len(rows)))
+        rnd.shuffle(order)
+        rows = [rows[i] for i in order]
+        labels = [labels[i] for i in order]
+        chs = rnd.choice([[2], [1], [1, 2], [2, 0]])
+        cch = rnd.choice([[0], [1], [0, 1], [1, 0], [0, 1, 2], list(chs)])
+        mef = [[(None if rnd.random() < 0.2 else float(10 ** (j + 1) + c_)) for j in range(K)] for c_ in range(len(chs))]
+        selected = [[rnd.random() < 0.8 for _j in range(K)] for _c in range(len(chs))]
+        yield 'FlowCal.mef.get_transform_fxn', {'data': rows, 'chs': chs, 'cch': cch, 'labels': labels, 'mef': mef, 'selected': selected}
+
+
 GENS = {
     'C08': [('start_end', g_start_end), ('high_low', g_high_low), ('ellipse', g_ellipse)],
     'C04': [('getitem', g_getitem), ('setitem', g_setitem)],
@@ -254,7 +281,7 @@ GENS = {
     'C03': [('to_rfi', g_to_rfi)],
     'C07': [('commute', g_c07)],
     # the transformation that get_transform_fxn returns is to_mef bound to the fitted curves: C02 re-uses C06's enumeration
-    'C02': [('returned-transformation(to_mef)', g_to_mef)],
+    'C02': [('returned-transformation(to_mef)', g_to_mef), ('orchestration(stub clustering/selection/fit)', g_c02_orch)],
 }
 
 BOUNDS = {
@@ -268,7 +295,10 @@ BOUNDS = {
 }
 
 
-BOUNDS['C02'] = 'returned transformation: the C06 enumeration of to_mef (ordered subsets of curves / requests)'
+BOUNDS['C02'] = ('returned transformation: the C06 enumeration of to_mef (ordered subsets of curves / requests); orchestration: 250 '
+                 '(quick) / 3000 (thorough) seeded small samples (2-4 populations of 1-3 integer-valued events in 3 channels, shuffled '
+                 'event order and label numbering, 6 clustering-channel lists, unknown values and rejected populations at random) run '
+                 'through get_transform_fxn with stub clustering / selection / fitting functions')
 
 
 BOUNDS['C03'] = ('D<=3 (quick) / 4 (thorough): every ordered subset of columns by position, negative position and name; overrides '
